@@ -17,6 +17,14 @@
 
 extern "C" void sim_baton_wait(volatile int *w);
 extern "C" void sim_baton_post(volatile int *w);
+// ThreadSanitizer must not see the harness's own memory accesses (they are serialised by the baton, which it cannot see):
+// every stretch of harness / simulator code executed by a simulated task is bracketed by these.
+extern "C" void AnnotateIgnoreWritesBegin(const char *f, int l) __attribute__((weak));
+extern "C" void AnnotateIgnoreWritesEnd(const char *f, int l) __attribute__((weak));
+extern "C" void AnnotateIgnoreReadsBegin(const char *f, int l) __attribute__((weak));
+extern "C" void AnnotateIgnoreReadsEnd(const char *f, int l) __attribute__((weak));
+static inline void tsan_harness_begin() { if (AnnotateIgnoreWritesBegin) { AnnotateIgnoreReadsBegin(__FILE__, __LINE__); AnnotateIgnoreWritesBegin(__FILE__, __LINE__); } }
+static inline void tsan_harness_end() { if (AnnotateIgnoreWritesEnd) { AnnotateIgnoreWritesEnd(__FILE__, __LINE__); AnnotateIgnoreReadsEnd(__FILE__, __LINE__); } }
 extern "C" int __sanitizer_install_malloc_and_free_hooks(void (*malloc_hook)(const volatile void *, size_t),
                                                            void (*free_hook)(const volatile void *)) __attribute__((weak));
 
@@ -249,7 +257,13 @@ static void reschedule(YieldKind k) {
 		if (starved_any) mn = std::min(mn, G.p.starve_from_us + G.p.starve_for_us);
 		if (mn == UINT64_MAX) fail("DEADLOCK", "wait-for", wait_graph());
 		G.now = mn;
-		if (G.now > G.p.max_time_us) fail("HANG", "time-budget", "simulated-time budget exhausted: " + describe_tasks());
+		if (G.now > G.p.max_time_us) {
+			bool on_lock = false;
+			for (int i = 0; i < G.ntasks; i++) if (G.tasks[i].st == T_BLOCKED) on_lock = true;
+			// a task blocked on a library lock for ever vs. a poll loop that waits for an event which never comes
+			if (on_lock) fail("HANG", "lock never granted", "simulated-time budget exhausted while a task waits for a lock: " + describe_tasks());
+			fail("WAIT_FOREVER", "time-budget", "simulated-time budget exhausted (no lock involved): " + describe_tasks());
+		}
 	}
 	int def = run[0];
 	for (int i = 0; i < n; i++) if (run[i] == cur->id) def = cur->id;
@@ -291,10 +305,12 @@ static void *tramp(void *p) {
 	me = t;
 	sim_baton_wait(&t->go);
 	if (t->cfn) t->cret = t->cfn(t->carg);
-	else t->fn();
+	else { tsan_harness_begin(); t->fn(); tsan_harness_end(); }
+	tsan_harness_begin();
 	if (!t->held.empty()) fail("LOCK_LEAK_AT_EXIT", t->name, "task exits holding locks: " + describe_tasks());
 	t->st = T_DONE;
 	reschedule(Y_EXIT);
+	tsan_harness_end();
 	return t->cret;
 }
 
@@ -366,6 +382,7 @@ void run_begin(const SchedParams &p) {
 	me = t;
 	G.cur = t;
 	G.running = true;
+	tsan_harness_begin();
 }
 
 void run_end() {
@@ -375,6 +392,7 @@ void run_end() {
 		if (t.has_thread) { pthread_join(t.th, nullptr); t.has_thread = false; }
 		t.fn = nullptr;
 	}
+	tsan_harness_end();
 	G.st.sim_time_us = G.now;
 	G.running = false;
 	me = nullptr;
@@ -382,8 +400,8 @@ void run_end() {
 }
 
 // ------------------------------------------------------------------ scopes
-HarnessScope::HarnessScope() { t = me; saved = t ? t->in_lib : false; if (t) t->in_lib = false; }
-HarnessScope::~HarnessScope() { if (t) t->in_lib = saved; }
+HarnessScope::HarnessScope() { t = me; saved = t ? t->in_lib : false; if (t) { t->in_lib = false; if (saved) tsan_harness_begin(); } }
+HarnessScope::~HarnessScope() { if (t) { t->in_lib = saved; if (saved) tsan_harness_end(); } }
 
 ApiScope::ApiScope(const char *api_name) : name(api_name) {
 	t = me;
@@ -391,11 +409,13 @@ ApiScope::ApiScope(const char *api_name) : name(api_name) {
 	saved = t ? t->in_lib : false;
 	if (t) {
 		if (t->api_depth++ == 0) { t->cur_api = api_name; reschedule(Y_API); t->api_invoke_step = G.step; }
+		if (!t->in_lib) tsan_harness_end();     // entering library code
 		t->in_lib = true;
 	}
 }
 ApiScope::~ApiScope() {
 	if (!t) return;
+	if (!saved) tsan_harness_begin();            // back in harness code
 	t->in_lib = saved;
 	if (t->held.size() != held_before) {
 		std::string d = std::string("call ") + name + " returned with a different held-lock set: " + describe_tasks();
@@ -534,9 +554,9 @@ using namespace sim;
 // =================================================================== wrappers (library objects only)
 namespace {
 struct SimScope {
-	Task *t;
-	SimScope() { t = me; if (t) t->sim_depth++; }
-	~SimScope() { if (t) t->sim_depth--; }
+	Task *t; bool ign;
+	SimScope() { t = me; ign = false; if (t) { if (t->sim_depth++ == 0 && t->in_lib) { ign = true; tsan_harness_begin(); } } }
+	~SimScope() { if (t) { t->sim_depth--; if (ign) tsan_harness_end(); } }
 };
 }
 extern "C" {
@@ -814,6 +834,13 @@ FILE *__wrap_fopen(const char *path, const char *mode) {
 }
 int __wrap_fclose(FILE *f) {
 	SimScope simscope_; return fclose(f); }
+
+// ---- deterministic heap fill for the library's own allocations (non-ASan variants only)
+void *__wrap_malloc(size_t n) {
+	void *p = malloc(n);
+	if (p) memset(p, 0xA5, n);
+	return p;
+}
 
 // ---- serial device
 int __wrap_open(const char *path, int flags, ...) {
